@@ -215,14 +215,23 @@ def lmoL2 (x : Nat) (v : Int) : Except PErr LOut := do
   if y = 0 then throw .divZero
   pure { x13, y, z := Int.tdiv x y, c := getCI y }
 
-/-! ### the tuning-factor state machine on exact values (util.cpp 173-201, 47-50)
+/-! ### the tuning-factor state machine on exact values (util.cpp 47-53, 176-204)
 
-`set_alpha*(a)`: `if (a < 1.0) alpha_ = -1; else alpha_ = truncate3(a)` with
-`truncate3(n) = (int64_t)(n * 1000) / 1000.0`. `lt1` and `k` (the truncation of the double `a * 1000`) are the float outcomes. -/
-def setAlphaL2 (lt1 : Bool) (k : Int) : Except PErr (Option Int) :=
-  if lt1 then .ok none else do
+`set_alpha*(a)`: `if (!(a >= 1.0)) alpha_ = -1; else alpha_ = truncate3(a)` (so NaN selects the automatic mode) with
+`truncate3(n) = (int64_t)(std::min(n, 1e15) * 1000) / 1000.0`. `ge1` (the comparison `a >= 1.0`) and `k` (the truncation of
+the double `min(a, 1e15) * 1000`) are the float outcomes. Before the repair recorded in KNOWN_FINDINGS.txt the code had no
+`min` and tested `a < 1.0`: `set_alpha_y(1e16)`, `set_alpha(NaN)` reached the cast with a value outside `int64_t` (UB). -/
+def setAlphaL2 (ge1 : Bool) (k : Int) : Except PErr (Option Int) :=
+  if !ge1 then .ok none else do
     let k ← castI64 k
     pure (some k)
+
+/-- Float envelope of `truncate3` (named hypothesis of `set_alpha_total`): for a double `a ≥ 1` the product
+    `min(a, 1e15) * 1000` truncates into `[1000, 10^18]` — IEEE multiplication is monotone and `1e15 * 1000 = 10^18`
+    is exact. The driver evaluates it on every sample of the `setalpha` ops. -/
+def TruncClampEnv (ge1 : Bool) (k : Int) : Prop := ge1 = true → 1000 ≤ k ∧ k ≤ 10 ^ 18
+
+instance (ge1 : Bool) (k : Int) : Decidable (TruncClampEnv ge1 k) := by unfold TruncClampEnv; exact inferInstance
 
 /-! ### fast_div64 (include/fast_div.hpp 103-133) -/
 
